@@ -372,11 +372,23 @@ func definition(fn *ast.FuncDecl, name string) string {
 	return def
 }
 
+// the statement after which the records / the JSON text have been read: a store that needs what the reader
+// detected while reading them must come after it
+var readMarks = []string{"readRecordSet(", "json.LoadTable(", "wg.Wait()"}
+
 func stores(fn *ast.FuncDecl) []string {
 	var items []string
+	phase := "before the records are read"
 	var walk func(stmts []ast.Stmt, guard string)
 	walk = func(stmts []ast.Stmt, guard string) {
 		for _, st := range stmts {
+			if _, isIf := st.(*ast.IfStmt); !isIf {
+				for _, m := range readMarks {
+					if strings.Contains(src(st), m) {
+						phase = "after the records are read"
+					}
+				}
+			}
 			switch s := st.(type) {
 			case *ast.AssignStmt:
 				if len(s.Lhs) == 1 && strings.HasPrefix(src(s.Lhs[0]), "fileInfo.") && len(s.Rhs) == 1 {
@@ -386,7 +398,7 @@ func stores(fn *ast.FuncDecl) []string {
 							rhs = id.Name + " := " + d
 						}
 					}
-					items = append(items, "("+q(strings.TrimPrefix(src(s.Lhs[0]), "fileInfo."))+", "+q(rhs)+", "+q(guard)+")")
+					items = append(items, "("+q(strings.TrimPrefix(src(s.Lhs[0]), "fileInfo."))+", "+q(rhs)+", "+q(guard)+", "+q(phase)+")")
 				}
 			case *ast.IfStmt:
 				g := src(s.Cond)
@@ -450,7 +462,7 @@ func emitLoaders(lv *ast.File) {
 		}
 		items = append(items, "("+q(name)+", ["+strings.Join(stores(fn), ", ")+"])")
 	}
-	fmt.Printf("/-- the loaders: every store into fileInfo as (attribute, value, guard), in order -/\ndef loaderStores : List (String × List (String × String × String)) :=\n  [%s]\n\n", strings.Join(items, ",\n   "))
+	fmt.Printf("/-- the loaders: every store into fileInfo as (attribute, value, guard, before / after the records are read), in order -/\ndef loaderStores : List (String × List (String × String × String × String)) :=\n  [%s]\n\n", strings.Join(items, ",\n   "))
 }
 
 // ---------- jsonLineBreakDetector ----------
